@@ -1696,6 +1696,9 @@ class WcParse(Generic[AnyStr]):
                     if result[index + 1] == dir_sep:
                         # The pattern is just `**/`: the implicit `globstar` takes over its demand for a directory
                         prepend = [dir_sep if v == sep else v for v in prepend]
+                    if value in (self.path_gstar_dot1, self.path_gstar_dot2) and f'({value})' in prepend:
+                        # The pattern's own `globstar` does not capture (`***` follows links), so the merged one must not
+                        prepend = [value if v == f'({value})' else v for v in prepend]
                     del result[index:index + 2]
                 break
             result = prepend + result
